@@ -647,6 +647,101 @@ def run_world(items):
     return out, None
 
 
+ROLE = "sales@example.com"
+ROLE_BOX = "Roles/%s/INBOX" % ROLE
+
+
+def run_role_world(sc):
+    """One user with a role mailbox: DIFFERENT messages under the SAME message ids /
+    sequence numbers in the personal store and in the role store. One connection
+    alternates between the two stores (both orders); fresh connections fetch again."""
+    P, R = sc["P"], sc["R"]
+    K = len(P)
+    ops = ops_login("s", A) + [{"op": "send", "conn": "s", "data": "s2 LOGOUT\r\n", "until": "tag:s2"},
+                               {"op": "role_create", "email": ROLE}, {"op": "role_assign", "user": A, "role": 1},
+                               {"op": "lmtp_open", "conn": "l1"}, {"op": "send", "conn": "l1", "data": "LHLO x\r\n", "until": "lmtp:1"}]
+    subs = {}
+    pos_data = {}
+    for k in range(K):
+        for (store, m, rcpt) in (("P", P[k], A), ("R", R[k], ROLE)):
+            sub, wire = lmtp_wire(m["_raw"])
+            subs[(store, k)] = sub
+            pos_data[(store, k)] = len(ops) + 3
+            ops += ops_lmtp("l1", rcpt, wire)
+    ops += ops_login("c", A)
+    sel = {"P": "INBOX", "R": ROLE_BOX}
+    fetches = []   # (op position, store, k)
+    tagn = [0]
+
+    def do(store, k):
+        tagn[0] += 1
+        ops.append({"op": "send", "conn": "c", "data": "q%d SELECT %s\r\n" % (tagn[0], sel[store]), "until": "tag:q%d" % tagn[0]})
+        tagn[0] += 1
+        fetches.append((len(ops), store, k))
+        ops.append({"op": "send", "conn": "c", "data": "q%d FETCH %d BODY.PEEK[]\r\n" % (tagn[0], k + 1), "until": "tag:q%d" % tagn[0], "timeout_ms": 15000})
+    for k in range(K):
+        order = ["P", "R"] if k % 2 == 0 else ["R", "P"]
+        for st in order + order[:1]:
+            do(st, k)
+    # fresh connections, one per store
+    fresh = []
+    for store in ("P", "R"):
+        conn = "f" + store
+        ops += ops_login(conn, A) + [{"op": "send", "conn": conn, "data": "x1 SELECT %s\r\n" % sel[store], "until": "tag:x1"}]
+        for k in range(K):
+            fresh.append((len(ops), store, k))
+            ops.append({"op": "send", "conn": conn, "data": "y%d FETCH %d BODY.PEEK[]\r\n" % (k, k + 1), "until": "tag:y%d" % k, "timeout_ms": 15000})
+    res = C.run_ops(ops, timeout=900)
+    if res.get("crashed"):
+        return None, res.get("stderr", "")[:800]
+    obs = res["obs"]
+    out = {}
+    for key, pos in pos_data.items():
+        recv = C.unlatin(obs[pos].get("recv", ""))
+        out[key] = {"stored": recv.startswith(b"250"), "submitted": subs[key], "via": "lmtp/" + ("personal" if key[0] == "P" else "role"),
+                    "reply": recv[:200], "alt": []}
+    for (pos, store, k) in fetches:
+        out[(store, k)]["alt"].append(literal_of(C.unlatin(obs[pos].get("recv", ""))))
+    for (pos, store, k) in fresh:
+        out[(store, k)]["f2"] = literal_of(C.unlatin(obs[pos].get("recv", "")))
+    return out, None
+
+
+def observe_role(chk, sc, res):
+    out, err = res
+    if out is None:
+        chk.broken_obligation("driver crashed in scenario %s: %s" % (sc["tag"], err), {"suite": "world"})
+        return False
+    if not all(d["stored"] for d in out.values()):
+        chk.notes.append("role-store scenario skipped: a delivery was refused (%r)" % [d["reply"][:60] for d in out.values() if not d["stored"]][:1])
+        return False
+    K = len(sc["P"])
+    worlds = []
+    for wi, (store, ms) in enumerate((("P", sc["P"]), ("R", sc["R"]))):
+        items = []
+        for k, m in enumerate(ms):
+            d = out[(store, k)]
+            alts = d["alt"]
+            d["f1"] = alts[0] if alts else None
+            # every fetch on the alternating connection must return the same octets
+            for a in alts[1:]:
+                if a != d["f1"]:
+                    d["f2"] = a
+            sub = d["submitted"]
+            mm = m
+            if sub != m["_raw"]:
+                try:
+                    mm = parse_message(sub)
+                except ParseError:
+                    mm = m
+            items.append({"msg": mm, "obs": try_parse(d.get("f1")), "idx": wi * K + k, "d": d,
+                          "raw": sub if sub == m["_raw"] else None, "bds": m["_bds"], "eah": None})
+        worlds.append(items)
+    sc["worlds"] = worlds
+    sc["refused"] = []
+    return True
+
+
 # ---------------------------------------------------------------------------
 # evaluation of one batch of worlds in Coq
 
@@ -932,16 +1027,23 @@ def evaluate_all(chk, scenarios):
     scenarios = [sc for sc in scenarios if sc is not None]
     if not scenarios:
         return
+    role_scs = [sc for sc in scenarios if sc.get("role")]
+    scenarios = [sc for sc in scenarios if not sc.get("role")]
     flat = [w for sc in scenarios for w in sc["scen"]]
     from concurrent.futures import ThreadPoolExecutor
     C.build_driver()
     with ThreadPoolExecutor(max_workers=8) as ex:
         rs = list(ex.map(run_world, flat))
         eahs = list(ex.map(lambda sc: eah_calls([m["_raw"] for m in sc["msgs"]]), scenarios))
+        rrs = list(ex.map(run_role_world, role_scs))
     ok = []
     for k, sc in enumerate(scenarios):
         if observe(chk, sc, rs[2 * k:2 * k + 2], eahs[k]):
             ok.append(sc)
+    for sc, res in zip(role_scs, rrs):
+        if observe_role(chk, sc, res):
+            ok.append(sc)
+            chk.cov["role_store_fetches"] = chk.cov.get("role_store_fetches", 0) + sum(len(it["d"]["alt"]) for w in sc["worlds"] for it in w)
     # chunks of at most ~160 messages per Coq file
     chunk, size = [], 0
     chunks = []
@@ -970,6 +1072,18 @@ def evaluate_all(chk, scenarios):
         chk.broken_obligation("correspondence %s no longer checks: implementation output differs from the model's prediction although msg_equiv still holds (%s, %d cases): submitted %r fetched %r" % (
             kind, tag, len(st["mismatch"]), sub[:160], got[:200]),
             {"suite": "mismatch", "kind": kind, "submitted": C.latin(sub), "fetched": C.latin(got)})
+
+
+def prepare_role(chk, rng, tag, K):
+    """K personal + K role messages of the grammar (all different)"""
+    pool = list(POOL_SEED)
+    msgs = [gen_message(rng, i, pool) for i in range(2 * K)]
+    sc = prepare(chk, msgs, ["lmtp"] * (2 * K), tag)
+    if sc is None:
+        return None
+    sc["role"] = True
+    sc["P"], sc["R"] = msgs[:K], msgs[K:]
+    return sc
 
 
 def corpus_cases():
@@ -1012,6 +1126,10 @@ def run(chk):
         if w == 0:
             chk.sample({"submitted_octets": C.latin(serialize(msgs[0], boundaries_for(msgs[0], 0)))[:600]})
         scenarios.append(prepare(chk, msgs, vias, "gen%d" % w))
+    # one connection alternating between the personal store and a role store that hold
+    # different messages under the same message ids (a message is a message OF A STORE)
+    for w in range(1 if chk.tier == "quick" else 6):
+        scenarios.append(prepare_role(chk, rng, "role%d" % w, 4 if chk.tier == "quick" else 6))
     evaluate_all(chk, scenarios)
     cov["distinct_nontrivial"] = len(nontrivial)
     cov["worlds"] = nworlds * 2
